@@ -308,7 +308,7 @@ def main():
     # translator validation: the witness of each cover point (a model of the symbolic run) is executed
     # natively; the real code must reach the same cover point with no failed assertion
     conf_ok = conf_bad = 0
-    violated_ids = {o["ID"] for r in results for o in r.get("obligations", []) if o["Verdict"] == "violated"}
+    violated_ids = {o["ID"] for r in results for o in (r.get("obligations") or []) if o["Verdict"] == "violated"}
     conf_limit = spec.get("conformance_limit", 8 if tier == "quick" else 40)
     if spec.get("conformance") is False:
         conf_limit = 0  # witnesses depend on hash values (A-HASH abstraction): not replayable natively
